@@ -314,6 +314,28 @@ def examine(run, sc, r, source):
     return bool(viols)
 
 
+def twin_scenarios():
+    out = []
+    for how in ('out', 'in'):
+        for typ in ('F', 'P', 'D'):
+            for n, orders in ((2, ([1], [0], [1, 0], [0, 1])), (3, ([2], [1, 2], [2, 0, 1]))):
+                for order in orders:
+                    for via in ('disc', 'eof'):
+                        out.append({'how': how, 'typ': typ, 'n': n, 'close_order': list(order), 'via': via})
+    return out
+
+
+def twins_violation(r):
+    """-> (step, connection index, what) of the first connection object that is registered but not open or open but not registered"""
+    for k, step in enumerate(r['steps']):
+        for i, c in enumerate(step):
+            if c is None:
+                return (k, i, 'missing (the connection object was never seen)')
+            if c['registered'] != c['open'] and c['state'] not in ('CLOSING',):
+                return (k, i, f"registered={c['registered']} open={c['open']} state={c['state']}")
+    return None
+
+
 def check_pins(run):
     """shape pins: the functions the C10/C11 models abstract beyond what tr_c10life / tr_port regenerate"""
     try:
@@ -372,6 +394,35 @@ def run(run: Run):
             flagged = examine(run, sc, r, source)
             rows.append(coq_case(len(rows), sc, r, flagged))
             kept.append((sc, r))
+    finally:
+        c10_sim.cleanup_tmp()
+
+    # several connections with the same identity registered at once (concurrent transfers to one peer, a stale and a fresh
+    # connection): the registry must follow each OBJECT -- after every close, registered iff open, for each of them
+    try:
+        for sc in twin_scenarios():
+            try:
+                r = c10_sim.run_twins(sc)
+            except Exception as e:
+                run.add_finding(Finding(f'crash:{type(e).__name__}', f'twin scenario raised {type(e).__name__}: {e}', {'twins': sc}))
+                continue
+            run.case({'twins': sc}, kind='twins')
+            bad = twins_violation(r)
+            if bad:
+                run.add_finding(Finding('registry_exact:twins', f'connections with equal identity: after closing #{bad[0]} connection #{bad[1]} is '
+                                        f'{bad[2]}', {'twins': sc}, observed=r['steps'], expected='each connection object registered iff open'))
+        # the life cycle with the library's logging switched on (records are formatted: log_utils.ConnectionLoggerAdapter)
+        for k, sc0 in enumerate(systematic()):
+            if k % (9 if run.tier == 'quick' and not run.broken else 3) != run.seed % 3:
+                continue
+            sc = dict(sc0, logging=True, listeners=None)
+            try:
+                r = c10_sim.run_scenario(sc)
+            except Exception as e:
+                run.add_finding(Finding(f'crash-with-logging:{type(e).__name__}', f'scenario raised {type(e).__name__}: {e}', {'scenario': sc}))
+                continue
+            run.case({'sc': sc}, kind='logging-on')
+            examine(run, sc, r, 'logging')
     finally:
         c10_sim.cleanup_tmp()
 
@@ -450,6 +501,18 @@ def _reindex(row, j):
 
 
 def replay(rep) -> int:
+    if 'twins' in rep['witness']:
+        try:
+            r = c10_sim.run_twins(rep['witness']['twins'])
+        finally:
+            c10_sim.cleanup_tmp()
+        print('twins:', json.dumps(rep['witness']['twins']))
+        for k, st in enumerate(r['steps']):
+            print(' after', k, 'closes:', json.dumps(st))
+        bad = twins_violation(r)
+        if bad:
+            print('FAILS registry_exact: step', bad[0], 'connection', bad[1], bad[2])
+        return 1 if bad else 0
     if 'request_script' in rep['witness']:
         from checks import c11, c11_sim
         sc = rep['witness']['request_script']
